@@ -3,7 +3,7 @@ from __future__ import annotations
 
 import z3
 
-from .values import (StrT, JoinT, SeqT, LitB, CompB, RangeB, SeqV, ObjV, DtV, EnumV, SetV, DictV,
+from .values import (RecV, StrT, JoinT, SeqT, LitB, CompB, RangeB, SeqV, ObjV, DtV, EnumV, SetV, DictV,
                      Unsupported, is_z3)
 
 # Python's str.splitlines() boundaries and str.strip() whitespace
@@ -278,6 +278,8 @@ def canon(v):
         return repr(v)
     if isinstance(v, DtV):
         return f'D:{v.cls.name}:' + v.expr.sexpr()
+    if isinstance(v, RecV):
+        return f'J:{v.schema.name}:' + v.expr.sexpr()
     if isinstance(v, ObjV):
         return f'O:{v.cls.name}{{' + ','.join(f'{k}={canon(x)}' for k, x in v.fields.items()) + '}'
     if isinstance(v, tuple):
@@ -438,6 +440,15 @@ def subst(v, pairs):
         return SeqT([subst_block(b, pairs) for b in v.blocks])
     if isinstance(v, DtV):
         return DtV(v.cls, z3.substitute(v.expr, *pairs))
+    if isinstance(v, RecV):
+        return RecV(v.schema, z3.substitute(v.expr, *pairs))
+    tn = type(v).__name__
+    if tn == 'EnumSym':
+        return type(v)(v.cls, z3.substitute(v.expr, *pairs))
+    if tn == 'UnionV':
+        return type(v)(v.uni, z3.substitute(v.expr, *pairs))
+    if tn == 'OpaqueV' and v.expr is not None and is_z3(v.expr):
+        return type(v)(z3.substitute(v.expr, *pairs), v.note)
     if isinstance(v, tuple):
         return tuple(subst(x, pairs) for x in v)
     if isinstance(v, SeqV):
